@@ -14,6 +14,7 @@ mod vcdcmd;
 mod cut;
 mod entry;
 mod debugcmd;
+mod hier;
 
 thread_local! {
     pub static LAST_PANIC: std::cell::RefCell<String> = std::cell::RefCell::new(String::new());
@@ -42,6 +43,7 @@ pub fn dispatch(line: &str) -> String {
     }
     match toks[0] {
         "tables" => tables::tables(&toks),
+        "hier" => hier::hier(&toks),
         "dumpfile" => debugcmd::dumpfile(&toks),
         "entryvcd" => entry::entryvcd(&toks),
         "entryfile" => entry::entryfile(&toks),
